@@ -54,14 +54,17 @@ GraphPairs(b, I) ==
       [] b = "agent_task"           -> OpMachinePairs(I) \cup MachMachPairs(I) \cup SameJobPairs(I)
       [] b = "agent_task_with_jobs" -> OpMachinePairs(I) \cup MachMachPairs(I) \cup OpJobPairs(I) \cup JobJobPairs(I)
       [] b = "complete_agent_task"  -> OpMachinePairs(I) \cup OpJobPairs(I) \cup GlobalPairs(I)
-(* the type an edge must carry; where a job-chain edge coincides with a        *)
-(* disjunctive one (consecutive operations of a job on one machine) either is  *)
-(* accepted (the graph library keeps one attribute)                            *)
+(* the type an edge must carry.  A directed graph holds one edge per ordered    *)
+(* pair: where a job-chain edge coincides with a disjunctive one (consecutive   *)
+(* operations of a job on one machine) the job-chain edge - a hard precedence - *)
+(* must stay conjunctive; the reverse direction is disjunctive.                 *)
 EdgeTypeOK(b, I, e) ==
     LET p == <<e[1], e[2]>> IN
-    IF b \in {"disjunctive", "solved"}
-    THEN \/ (e[3] = "conj" /\ p \in ConjPairs(I) \cup SourceSinkPairs(I))
-         \/ (e[3] = "disj" /\ p \notin SourceSinkPairs(I) /\ (b = "solved" \/ p \in DisjPairs(I)))
+    IF b = "disjunctive"
+    THEN IF p \in ConjPairs(I) \cup SourceSinkPairs(I) THEN e[3] = "conj" ELSE e[3] = "disj"
+    ELSE IF b = "solved"      \* (the statement types the builders' graphs only: either attribute is accepted where a
+                              \*  machine-order arc coincides with a job-chain edge)
+    THEN IF p \in SourceSinkPairs(I) THEN e[3] = "conj" ELSE e[3] \in {"conj", "disj"}
     ELSE e[3] = "none"
 
 (* solved disjunctive graph of a schedule *)
